@@ -2759,6 +2759,16 @@ ws_str_recv(void *arg, nng_aio *aio)
 	if (nni_list_first(&ws->recvq) == aio) {
 		ws_read_finish(ws);
 	}
+	if (ws->closed && nni_aio_list_active(aio)) {
+		// The connection was closed (ws_close failed the receives
+		// that were waiting at that time) and nothing was queued
+		// for this one: no frame will ever be read again, so do
+		// not leave the caller waiting forever.
+		nni_aio_list_remove(aio);
+		nni_mtx_unlock(&ws->mtx);
+		nni_aio_finish_error(aio, NNG_ECLOSED);
+		return;
+	}
 	ws_start_read(ws);
 
 	nni_mtx_unlock(&ws->mtx);
